@@ -111,13 +111,16 @@ impl<T> DefList<T>
 
     pub fn maybe_get(&self, item_ref: util::ItemRef<T>) -> Option<&T>
     {
+        // A slot can also be an undefined hole below a later
+        // definition (e.g. a function declared before a symbol that
+        // only appears once an `#if` block has been resolved)
         if item_ref.0 >= self.defs.len()
         {
             None
         }
         else
         {
-            Some(self.defs[item_ref.0].as_ref().unwrap())
+            self.defs[item_ref.0].as_ref()
         }
     }
 
